@@ -22,6 +22,9 @@ def gty(t) -> str:
 def node_term(n) -> str:
     """A live NIR node -> Coq term of type node (what the implementation holds now)."""
     cname = type(n).__name__
+    if cname not in KINDS and cname != "NIRGraph":
+        # an instance of a user-defined subclass is an instance of the library class it derives from
+        cname = next((k.__name__ for k in type(n).__mro__ if k.__name__ in KINDS or k.__name__ == "NIRGraph"), cname)
     if cname == "NIRGraph":
         ch = F.clist([f"({F.cstr(k)}, {node_term(c)})" for k, c in n.nodes.items()])
         es = F.clist([f"({F.cstr(a)}, {F.cstr(b)})" for a, b in n.edges])
